@@ -30,6 +30,10 @@ func init() {
 			ruleAnyOrder(c, lightBound(c.P, "plenccodec.StructCodec.Read"))
 			ruleMapDescriptor(c)
 			ruleReg(c)
+			ruleOverlayKey(c)
+			// "every length prefix is exact": prefixes are written from Size
+			ruleSizeLaw(c)
+			ruleFrame(c)
 			ruleLookupStateless(c, []string{"plenccodec.StructCodec.Read"})
 		},
 	})
